@@ -1797,7 +1797,11 @@ Fixpoint lt (c : cond) : list str :=
   | CScore n a s => lt_neg n ++ [codes "minscore"; codes "("; a; codes ","; show_Z s; codes ")"]
   | CMin n k opts => lt_neg n ++ [codes "minimum"; codes "("; show_Z k; codes ","; codes "["]
                      ++ ljoin (codes ",") (map (fun o => [o]) (sorted_set opts)) ++ [codes "]"; codes ")"]
-  | CCds n subs => lt_neg n ++ [codes "cds"; codes "("] ++ ljoin (codes "or") (map lt subs) ++ [codes ")"]
+  | CCds n subs =>
+    let inner := ljoin (codes "or") (map lt subs) in
+    lt_neg n ++ [codes "cds"; codes "("]
+    ++ (if cds_wraps subs (join s_or_sep (map show subs)) then codes "(" :: inner ++ [codes ")"] else inner)
+    ++ [codes ")"]
   | CGroup n subs =>
     match subs with
     | [sub] => if is_and sub then lt_neg n ++ codes "(" :: lt sub ++ [codes ")"]
@@ -1896,11 +1900,22 @@ Proof.
   - (* CCds *)
     assert (HF : Forall lexes subs).
     { rewrite forallb_forall in Hl. rewrite Forall_forall in *. intros x Hx. apply H; [assumption|apply Hl; assumption]. }
-    cbn [show lt]. change (codes "cds(") with (codes "cds" ++ [40]). change (codes ")") with [41].
-    change s_or_sep with (32 :: codes "or" ++ [32]). anorm. rewrite lex_prefix.
-    rewrite word_lex; [|reflexivity|tk_r]. rewrite punct_lex by reflexivity.
-    rewrite (lex_join (codes "or")); [|reflexivity|assumption|tk_r]. rewrite punct_lex by reflexivity.
-    pnorm. reflexivity.
+    assert (Join : forall rest', term_ok rest' ->
+              tok_aux (join s_or_sep (map show subs) ++ rest') [] false
+              = pre (ljoin (codes "or") (map lt subs)) (tok_aux rest' [] false)).
+    { intros rest' Hr'. change s_or_sep with (32 :: codes "or" ++ [32]). apply lex_join; [reflexivity|assumption|assumption]. }
+    cbn [show lt]. change (codes "cds(") with (codes "cds" ++ [40]).
+    destruct (cds_wraps subs (join s_or_sep (map show subs))).
+    + change (codes ")") with [41]. change (codes "(" ++ join s_or_sep (map show subs) ++ [41])
+        with (40 :: join s_or_sep (map show subs) ++ [41]).
+      anorm. rewrite lex_prefix.
+      rewrite word_lex; [|reflexivity|tk_r]. rewrite punct_lex by reflexivity. rewrite punct_lex by reflexivity.
+      rewrite Join by tk_r. rewrite punct_lex by reflexivity. rewrite punct_lex by reflexivity.
+      pnorm. reflexivity.
+    + change (codes ")") with [41]. anorm. rewrite lex_prefix.
+      rewrite word_lex; [|reflexivity|tk_r]. rewrite punct_lex by reflexivity.
+      rewrite Join by tk_r. rewrite punct_lex by reflexivity.
+      pnorm. reflexivity.
   - (* CGroup *)
     assert (HF : Forall lexes subs).
     { rewrite forallb_forall in Hl. rewrite Forall_forall in *. intros x Hx. apply H; [assumption|apply Hl; assumption]. }
@@ -1980,13 +1995,16 @@ Definition negate (c : cond) : cond :=
   end.
 
 (* the tree that the printed text denotes: a one-member group that is printed without parentheses is its
-   member (negated once more if the group is negated); the options of minimum() come back sorted *)
+   member (negated once more if the group is negated); the options of minimum() come back sorted; the only
+   member of a cds() that is printed with the explicit group of CDSCondition.__str__ comes back in that group *)
 Fixpoint norm (c : cond) : cond :=
   match c with
   | CSingle n a => CSingle n a
   | CScore n a s => CScore n a s
   | CMin n k opts => CMin n k (sorted_set opts)
-  | CCds n subs => CCds n (map norm subs)
+  | CCds n subs =>
+    if cds_wraps subs (join s_or_sep (map show subs)) then CCds n [CGroup false (map norm subs)]
+    else CCds n (map norm subs)
   | CGroup n subs =>
     match subs with
     | [sub] => if is_and sub then CGroup n [norm sub]
@@ -2009,15 +2027,13 @@ Fixpoint shape (allow : bool) (c : cond) : bool :=
   | CAnd ops => match ops with _ :: _ :: _ => true | _ => false end
                 && forallb (fun o => negb (is_and o) && shape allow o) ops
   end.
-(* guard of the round trip (finding cds_single_wrapped): the only member of a cds() does not print as a bare,
-   possibly negated, identifier *)
-Fixpoint cds_ok (c : cond) : bool :=
-  match c with
-  | CCds _ subs => cds_content (map norm subs) && forallb cds_ok subs
-  | CGroup _ subs => forallb cds_ok subs
-  | CAnd ops => forallb cds_ok ops
-  | _ => true
-  end.
+Lemma cds_wraps_single : forall subs inner, cds_wraps subs inner = true ->
+  exists sub, subs = [sub] /\ has_open inner = false /\ is_and sub = false.
+Proof.
+  intros [|sub [|s2 r]] inner H; cbn [cds_wraps] in H; try discriminate H.
+  apply andb_true_iff in H. destruct H as [H1 H2]. apply negb_true_iff in H1. apply negb_true_iff in H2.
+  exists sub. repeat split; assumption.
+Qed.
 
 Definition nf_top (x : cond) : bool :=
   match x with CGroup n [y] => is_and y || (n && starts_with s_not (show y)) | _ => true end.
@@ -2028,6 +2044,7 @@ Proof. intros []; reflexivity. Qed.
 Lemma norm_is_and : forall c, is_and (norm c) = is_and c.
 Proof.
   induction c using cond_ind_nested; try reflexivity.
+  { cbn [norm]. destruct (cds_wraps subs (join s_or_sep (map show subs))); reflexivity. }
   cbn [norm]. destruct subs as [|sub [|s2 r]]; try reflexivity.
   inversion H as [|x l Hs _]; subst. destruct (is_and sub) eqn:E; [reflexivity|].
   destruct (n && starts_with s_not (show sub)); [reflexivity|].
@@ -2056,7 +2073,8 @@ Proof.
     + cbn [app]. rewrite <- (app_nil_r name). apply name_tail; [apply is_id_name_ok; assumption|exact I].
   - cbn [show norm cneg]. apply (sw_prefix n (codes "minscore(" ++ _)). reflexivity.
   - cbn [show norm cneg]. apply (sw_prefix n (codes "minimum(" ++ _)). reflexivity.
-  - cbn [show norm cneg]. apply (sw_prefix n (codes "cds(" ++ _)). reflexivity.
+  - cbn [show norm]. destruct (cds_wraps subs (join s_or_sep (map show subs))); cbn [cneg];
+      apply (sw_prefix n (codes "cds(" ++ _)); reflexivity.
   - assert (Par : forall r, starts_with s_not (prefix n ++ codes "(" ++ r) = n)
       by (intros r; apply (sw_prefix n (codes "(" ++ r)); reflexivity).
     cbn [show norm]. destruct subs as [|sub [|s2 r]]; [apply Par| |apply Par].
@@ -2091,9 +2109,16 @@ Lemma show_norm : forall c, lexable c = true -> show (norm c) = show c /\ nf_top
 Proof.
   induction c using cond_ind_nested; intros Hl; cbn [lexable] in Hl; try (split; reflexivity).
   - split; [|reflexivity]. cbn [norm show]. rewrite sorted_set_idem. reflexivity.
-  - split; [|reflexivity]. cbn [norm show]. rewrite map_map.
-    rewrite (map_ext_Forall (fun x => show (norm x)) show subs); [reflexivity|].
-    rewrite forallb_forall in Hl. rewrite Forall_forall in *. intros x Hx. apply H; [assumption|apply Hl; assumption].
+  - assert (HM : map show (map norm subs) = map show subs).
+    { rewrite map_map. apply map_ext_Forall. rewrite forallb_forall in Hl. rewrite Forall_forall in *.
+      intros x Hx. apply H; [assumption|apply Hl; assumption]. }
+    cbn [norm]. destruct (cds_wraps subs (join s_or_sep (map show subs))) eqn:W.
+    + split; [|reflexivity]. destruct (cds_wraps_single _ _ W) as [sub [-> [Ho Ha]]].
+      cbn [map join] in *. injection HM as HM.
+      cbn [show map join is_and andb prefix app cds_wraps negb]. rewrite norm_is_and, Ha, HM, Ho. reflexivity.
+    + split; [|reflexivity]. cbn [show]. rewrite HM.
+      replace (cds_wraps (map norm subs) (join s_or_sep (map show subs))) with false; [rewrite W; reflexivity|].
+      rewrite <- W. destruct subs as [|sub [|s2 r]]; try reflexivity. cbn [map cds_wraps]. rewrite norm_is_and. reflexivity.
   - assert (HM : map show (map norm subs) = map show subs).
     { rewrite map_map. apply map_ext_Forall. rewrite forallb_forall in Hl. rewrite Forall_forall in *.
       intros x Hx. apply H; [assumption|apply Hl; assumption]. }
@@ -2137,7 +2162,12 @@ Proof.
   induction c using cond_ind_nested; intros Hl Hn; cbn [lexable] in Hl; try reflexivity.
   - cbn [norm nrb] in *. apply andb_true_iff in Hn. destruct Hn as [_ Hk]. rewrite Hk.
     rewrite NoDup_has_dup by apply sorted_set_NoDup. reflexivity.
-  - cbn [norm nrb] in *. apply nrb_list_norm; assumption.
+  - cbn [norm]. destruct (cds_wraps subs (join s_or_sep (map show subs))) eqn:W;
+      [|cbn [nrb] in *; apply nrb_list_norm; assumption].
+    destruct (cds_wraps_single _ _ W) as [sub [-> _]]. inversion H as [|x l Hs _]; subst.
+    cbn [forallb] in Hl. rewrite andb_true_r in Hl.
+    cbn [nrb map forallb] in Hn. apply andb_true_iff in Hn. destruct Hn as [_ Hn]. rewrite andb_true_r in Hn.
+    specialize (Hs Hl Hn). cbn [nrb map forallb has_dup smem existsb orb negb andb]. rewrite Hs. reflexivity.
   - cbn [norm]. destruct subs as [|sub [|s2 r]]; [reflexivity| |cbn [nrb] in *; apply nrb_list_norm; assumption].
     inversion H as [|x l Hs _]; subst. cbn [forallb] in Hl. rewrite andb_true_r in Hl.
     cbn [nrb map forallb] in Hn. apply andb_true_iff in Hn. destruct Hn as [_ Hn]. rewrite andb_true_r in Hn.
@@ -2213,6 +2243,62 @@ Proof.
       cbn [forallb] in H. apply andb_true_iff in H. destruct H as [H _]. apply Z.eqb_eq. exact H.
 Qed.
 
+(* a tree that reads back as a bare, possibly negated, identifier is printed without any parenthesis: the only
+   member of a cds() is then kept in an explicit group by CDSCondition.__str__, so what is read back inside
+   cds( ) is never a single identifier (finding cds_single_wrapped, repaired) *)
+Lemma not_single_not_open : forall c, is_single c = false -> (c =? 40) = false.
+Proof.
+  intros c H. destruct (c =? 40) eqn:E; [|reflexivity]. apply Z.eqb_eq in E. subst c. vm_compute in H. discriminate H.
+Qed.
+
+Lemma word_no_open : forall s, is_word s = true -> has_open s = false.
+Proof.
+  intros [|c0 cs] H; [discriminate H|]. cbn [is_word] in H. apply andb_true_iff in H. destruct H as [H0 Hcs].
+  unfold has_open. cbn [existsb].
+  unfold wc in H0. repeat rewrite andb_true_iff in H0. destruct H0 as [[_ H0] _]. apply negb_true_iff in H0.
+  rewrite (not_single_not_open _ H0). cbn [orb].
+  apply not_true_is_false. intros C. apply existsb_exists in C. destruct C as [x [Hx Ex]].
+  rewrite forallb_forall in Hcs. specialize (Hcs x Hx). unfold wc2 in Hcs. repeat rewrite andb_true_iff in Hcs.
+  destruct Hcs as [[_ H1] _]. apply negb_true_iff in H1. rewrite (not_single_not_open _ H1) in Ex. discriminate Ex.
+Qed.
+
+Lemma has_open_app : forall a b, has_open (a ++ b) = has_open a || has_open b.
+Proof. intros. unfold has_open. apply existsb_app. Qed.
+
+Lemma has_open_prefix : forall n, has_open (prefix n) = false.
+Proof. intros [|]; reflexivity. Qed.
+
+Lemma is_single_negate : forall x, is_single_cond (negate x) = is_single_cond x.
+Proof. intros []; reflexivity. Qed.
+
+Lemma norm_single_show : forall c, lexable c = true -> is_single_cond (norm c) = true -> has_open (show c) = false.
+Proof.
+  induction c using cond_ind_nested; intros Hl Hs; cbn [lexable] in Hl.
+  - cbn [show]. rewrite has_open_app, has_open_prefix. cbn [orb]. apply word_no_open. apply is_id_word. assumption.
+  - discriminate Hs.
+  - discriminate Hs.
+  - cbn [norm] in Hs. destruct (cds_wraps subs (join s_or_sep (map show subs))); discriminate Hs.
+  - cbn [norm] in Hs. destruct subs as [|sub [|s2 r]]; try discriminate Hs.
+    inversion H as [|x l IH _]; subst. cbn [forallb] in Hl. rewrite andb_true_r in Hl.
+    cbn [show].
+    destruct (is_and sub); [discriminate Hs|]. destruct (n && starts_with s_not (show sub)); [discriminate Hs|].
+    rewrite has_open_app, has_open_prefix. cbn [orb]. apply IH; [assumption|].
+    destruct n; [rewrite is_single_negate in Hs|]; assumption.
+  - discriminate Hs.
+Qed.
+
+Lemma cds_content_norm : forall subs, subs <> [] -> forallb lexable subs = true ->
+  cds_wraps subs (join s_or_sep (map show subs)) = false -> cds_content (map norm subs) = true.
+Proof.
+  intros [|sub [|s2 r]] Hne Hl W; [contradiction Hne; reflexivity| |reflexivity].
+  cbn [map cds_content]. destruct (is_single_cond (norm sub)) eqn:E; [|reflexivity]. exfalso.
+  cbn [forallb] in Hl. rewrite andb_true_r in Hl.
+  cbn [map join cds_wraps] in W. rewrite (norm_single_show sub Hl E) in W.
+  assert (Ha : is_and sub = false).
+  { rewrite <- norm_is_and. destruct (norm sub); try reflexivity. discriminate E. }
+  rewrite Ha in W. discriminate W.
+Qed.
+
 Definition derives (allow : bool) (c : cond) : Prop :=
   if is_and c then H_item allow (tk c) (norm c) else H_un allow (tk c) (norm c).
 
@@ -2220,17 +2306,17 @@ Lemma derives_item : forall allow c, derives allow c -> H_item allow (tk c) (nor
 Proof. intros allow c H. unfold derives in H. destruct (is_and c); [assumption|apply HI_un; assumption]. Qed.
 
 Lemma derives_list : forall allow subs,
-  Forall (fun c => forall allow, lexable c = true -> shape allow c = true -> cds_ok c = true -> derives allow c) subs ->
-  forallb lexable subs = true -> forallb (shape allow) subs = true -> forallb cds_ok subs = true ->
+  Forall (fun c => forall allow, lexable c = true -> shape allow c = true -> derives allow c) subs ->
+  forallb lexable subs = true -> forallb (shape allow) subs = true ->
   Forall (fun x => H_item allow (tk x) (norm x)) subs.
 Proof.
-  intros allow subs HF H1 H2 H3. rewrite forallb_forall in *. rewrite Forall_forall in *. intros x Hx.
+  intros allow subs HF H1 H2. rewrite forallb_forall in *. rewrite Forall_forall in *. intros x Hx.
   apply derives_item. apply HF; auto.
 Qed.
 
-Lemma derive : forall c allow, lexable c = true -> shape allow c = true -> cds_ok c = true -> derives allow c.
+Lemma derive : forall c allow, lexable c = true -> shape allow c = true -> derives allow c.
 Proof.
-  induction c using cond_ind_nested; intros allow Hl Hs Hc; unfold derives; cbn [is_and]; cbn [lexable] in Hl.
+  induction c using cond_ind_nested; intros allow Hl Hs; unfold derives; cbn [is_and]; cbn [lexable] in Hl.
   - (* CSingle *)
     unfold tk. cbn [lt norm]. rewrite map_app. cbn [map].
     apply (HU_id allow n (tkn n) (mk_token name)); [apply notp_tkn|apply Z.eqb_eq; exact Hl].
@@ -2257,12 +2343,24 @@ Proof.
     cbn [forallb] in Hids'. apply andb_true_iff in Hids'. destruct Hids' as [Hi _]. apply Z.eqb_eq. exact Hi.
   - (* CCds *)
     cbn [shape] in Hs. apply andb_true_iff in Hs. destruct Hs as [Hs Hsh]. apply andb_true_iff in Hs.
-    destruct Hs as [Hal Hne]. subst allow. cbn [cds_ok] in Hc. apply andb_true_iff in Hc. destruct Hc as [Hcont Hc].
-    unfold tk. cbn [lt norm]. rewrite !map_app. cbn [map app].
-    apply (HU_cds true n (tkn n)); try reflexivity; [apply notp_tkn| |assumption].
-    apply (ors_ljoin false subs); [destruct subs; [discriminate Hne|discriminate]|]. apply derives_list; assumption.
+    destruct Hs as [Hal Hne]. subst allow.
+    assert (HI : Forall (fun x => H_item false (tk x) (norm x)) subs) by (apply derives_list; assumption).
+    assert (Cds : forall X cs, H_ors false (map mk_token X) cs -> cds_content cs = true ->
+              H_un true (map mk_token (lt_neg n ++ [codes "cds"; codes "("] ++ X ++ [codes ")"])) (CCds n cs)).
+    { intros X cs HX Hcont. rewrite !map_app. cbn [map app].
+      apply (HU_cds true n (tkn n)); try reflexivity; [apply notp_tkn|assumption|assumption]. }
+    unfold tk. cbn [lt norm]. destruct (cds_wraps subs (join s_or_sep (map show subs))) eqn:W.
+    + (* the only member prints without a parenthesis: cds((member)) *)
+      destruct (cds_wraps_single _ _ W) as [sub [-> _]]. inversion HI as [|x l Hsub _]; subst.
+      apply Cds; [|reflexivity]. cbn [map ljoin].
+      match goal with |- H_ors _ ?L _ => rewrite <- (app_nil_r L) end. apply HO_ors; [|constructor].
+      apply HI_un. cbn [map]. rewrite map_app. cbn [map].
+      apply (HU_grp false false []); try reflexivity.
+      rewrite <- (app_nil_r (map mk_token (lt sub))). apply HO_ors; [exact Hsub|constructor].
+    + apply Cds; [|apply cds_content_norm; [destruct subs; [discriminate Hne|discriminate]|assumption|assumption]].
+      apply (ors_ljoin false subs); [destruct subs; [discriminate Hne|discriminate]|]. assumption.
   - (* CGroup *)
-    cbn [shape] in Hs. apply andb_true_iff in Hs. destruct Hs as [Hne Hsh]. cbn [cds_ok] in Hc.
+    cbn [shape] in Hs. apply andb_true_iff in Hs. destruct Hs as [Hne Hsh].
     assert (HI : Forall (fun x => H_item allow (tk x) (norm x)) subs) by (apply derives_list; assumption).
     unfold tk. cbn [lt norm]. destruct subs as [|sub [|s2 r]]; [discriminate Hne| |].
     + inversion HI as [|x l Hsub _]; subst.
@@ -2272,8 +2370,8 @@ Proof.
         rewrite <- (app_nil_r (map mk_token (lt sub))). apply HO_ors; [exact Hsub|constructor]. }
       destruct (is_and sub) eqn:E; [exact Grp|].
       destruct (n && starts_with s_not (show sub)) eqn:E2; [exact Grp|].
-      inversion H as [|x l Hd _]; subst. cbn [forallb] in Hl, Hsh, Hc. rewrite andb_true_r in Hl, Hsh, Hc.
-      specialize (Hd allow Hl Hsh Hc). unfold derives in Hd. rewrite E in Hd.
+      inversion H as [|x l Hd _]; subst. cbn [forallb] in Hl, Hsh. rewrite andb_true_r in Hl, Hsh.
+      specialize (Hd allow Hl Hsh). unfold derives in Hd. rewrite E in Hd.
       destruct n.
       * cbn [andb] in E2. cbn [lt_neg app map]. apply H_un_negate; [exact Hd| |reflexivity].
         rewrite <- sw_norm; assumption.
@@ -2282,12 +2380,12 @@ Proof.
       apply (HU_grp allow n (tkn n)); try reflexivity; [apply notp_tkn|].
       apply (ors_ljoin allow (sub :: s2 :: r)); [discriminate|assumption].
   - (* CAnd *)
-    cbn [shape] in Hs. apply andb_true_iff in Hs. destruct Hs as [Hlen Hsh]. cbn [cds_ok] in Hc.
+    cbn [shape] in Hs. apply andb_true_iff in Hs. destruct Hs as [Hlen Hsh].
     destruct ops as [|o1 [|o2 r]]; try discriminate Hlen.
     assert (HU : Forall (fun x => H_un allow (tk x) (norm x)) (o1 :: o2 :: r)).
     { rewrite forallb_forall in *. rewrite Forall_forall in *. intros x Hx.
       specialize (Hsh x Hx). apply andb_true_iff in Hsh. destruct Hsh as [Hna Hshx]. apply negb_true_iff in Hna.
-      specialize (H x Hx allow (Hl x Hx) Hshx (Hc x Hx)). unfold derives in H. rewrite Hna in H. exact H. }
+      specialize (H x Hx allow (Hl x Hx) Hshx). unfold derives in H. rewrite Hna in H. exact H. }
     inversion HU as [|x l Hu1 Hur]; subst.
     unfold tk. cbn [lt norm map]. pose proof (tk_ljoin (codes "and") (o2 :: r) o1) as Etk. cbn [map] in Etk. rewrite Etk.
     apply HI_and; [assumption|apply (andtail_flat allow (o2 :: r)); assumption|discriminate].
@@ -2325,8 +2423,12 @@ Lemma den_norm : forall c, lexable c = true -> forall g genes, den g genes (norm
 Proof.
   induction c using cond_ind_nested; intros Hl g genes; cbn [lexable] in Hl; try reflexivity.
   - cbn [norm den]. rewrite sorted_set_idem. reflexivity.
-  - cbn [norm den]. f_equal. apply existsb_ext_all. intros e. apply existsb_map_ext.
-    rewrite forallb_forall in Hl. rewrite Forall_forall in *. intros x Hx. apply H; [assumption|apply Hl; assumption].
+  - assert (HM : forall e, existsb (den e []) (map norm subs) = existsb (den e []) subs).
+    { intros e. apply existsb_map_ext.
+      rewrite forallb_forall in Hl. rewrite Forall_forall in *. intros x Hx. apply H; [assumption|apply Hl; assumption]. }
+    cbn [norm]. destruct (cds_wraps subs (join s_or_sep (map show subs))); cbn [den]; f_equal;
+      apply existsb_ext_all; intros e; [|apply HM].
+    cbn [existsb den]. rewrite HM. rewrite xorb_false_l, orb_false_r. reflexivity.
   - assert (HM : forall g genes, existsb (den g genes) (map norm subs) = existsb (den g genes) subs).
     { intros g' genes'. apply existsb_map_ext. rewrite forallb_forall in Hl. rewrite Forall_forall in *.
       intros x Hx. apply H; [assumption|apply Hl; assumption]. }
@@ -2343,7 +2445,7 @@ Proof.
 Qed.
 
 (* --- I8. the round trip --- *)
-Definition rt_ok (c : cond) : bool := lexable c && shape true c && cds_ok c && nrb c.
+Definition rt_ok (c : cond) : bool := lexable c && shape true c && nrb c.
 
 Lemma roundtrip_conds : forall cs, cs <> [] -> forallb rt_ok cs = true ->
   let toks := ljoin (codes "or") (map lt cs) in
@@ -2355,7 +2457,7 @@ Lemma roundtrip_conds : forall cs, cs <> [] -> forallb rt_ok cs = true ->
   (forall g genes, map (den g genes) (map norm cs) = map (den g genes) cs).
 Proof.
   intros cs Hne Hok toks.
-  assert (H4 : Forall (fun c => lexable c = true /\ shape true c = true /\ cds_ok c = true /\ nrb c = true) cs).
+  assert (H4 : Forall (fun c => lexable c = true /\ shape true c = true /\ nrb c = true) cs).
   { rewrite forallb_forall in Hok. rewrite Forall_forall. intros x Hx. specialize (Hok x Hx). unfold rt_ok in Hok.
     repeat rewrite andb_true_iff in Hok. tauto. }
   rewrite Forall_forall in H4.
@@ -2368,11 +2470,11 @@ Proof.
   - intros als cons f Hna Hf.
     assert (HD : H_ors true (map mk_token toks) (map norm cs)).
     { apply ors_ljoin; [assumption|]. rewrite Forall_forall. intros x Hx. apply derives_item.
-      destruct (H4 x Hx) as [A [B [C _]]]. apply derive; assumption. }
+      destruct (H4 x Hx) as [A [B _]]. apply derive; assumption. }
     destruct (parser_complete true) as [_ [_ [_ [_ Hors]]]].
     assert (Hnr : forallb nrb (map norm cs) = true).
     { rewrite forallb_forall. intros y Hy. apply in_map_iff in Hy. destruct Hy as [x [<- Hx]].
-      destruct (H4 x Hx) as [A [_ [_ D]]]. apply nrb_norm; assumption. }
+      destruct (H4 x Hx) as [A [_ D]]. apply nrb_norm; assumption. }
     pose proof (Hors _ _ HD Hnr als false [] cons f Hna eq_refl eq_refl eq_refl (fun _ => eq_refl)) as P.
     rewrite app_nil_r in P. apply P. rewrite map_length. exact Hf.
   - rewrite map_map. apply map_ext_Forall. rewrite Forall_forall. intros x Hx. apply show_norm. apply H4. assumption.
@@ -2554,6 +2656,22 @@ Proof.
   rewrite HT in HF. apply Forall_app in HF. destruct HF as [HF _]. apply Forall_rev in HF. rewrite rev_involutive in HF.
   destruct (H_shape allow) as [_ [_ [_ [_ Hors]]]]. destruct (Hors T cs HG HF) as [H1 [H2 H3]].
   split; [|assumption]. rewrite forallb_forall in *. intros x Hx. rewrite (H1 x Hx), (H2 x Hx), (Hn x Hx). reflexivity.
+Qed.
+
+(* hence the round trip holds, without any further hypothesis, for everything _parse_conditions returns
+   outside cds( ) from tokens as the tokeniser makes them (finding cds_single_wrapped, repaired) *)
+Lemma roundtrip_parsed : forall f g s cs s', parse_conditions f true g s = Ok (cs, s') ->
+  Forall tok_wf (consumed s') ->
+  let toks := ljoin (codes "or") (map lt cs) in
+  tokenise (join s_or_sep (map show cs)) = Ok toks /\
+  (forall als cons f', nah als (map mk_token toks) = true -> (2 * length toks + 3 <= f')%nat ->
+     parse_conditions f' true false (st (map mk_token toks) cons als)
+     = Ok (map norm cs, st [] (rev (map mk_token toks) ++ cons) als)) /\
+  map show (map norm cs) = map show cs /\
+  (forall e genes, map (den e genes) (map norm cs) = map (den e genes) cs).
+Proof.
+  intros f g s cs s' H HF. destruct (parsed_shape _ _ _ _ _ _ H HF) as [Hok Hne].
+  apply roundtrip_conds; [assumption|exact Hok].
 Qed.
 
 (* ====================================================================== *)
